@@ -452,3 +452,106 @@ Proof.
     destruct (spec_seq (snd p) r) as [ps'|] eqn:E2; [|discriminate].
     injection H as <-. rewrite (step_is_spec_l l s p E). cbn. f_equal. apply IH. exact E2.
 Qed.
+
+(* ------------------------------------------------------------------ callbacks that throw *)
+Section Total.
+  Variable f : callback.
+  Let fT : callbackT := fun e i a => Some (f e i a).
+  Lemma map_loopT_total : forall all l i, map_loopT fT all i l = Some (map_loop f all i l).
+  Proof. intros all l; induction l as [|x r IH]; intro i; [reflexivity|]. cbn. rewrite IH. reflexivity. Qed.
+  Lemma filter_loopT_total : forall all l i, filter_loopT fT all i l = Some (filter_loop f all i l).
+  Proof. intros all l; induction l as [|x r IH]; intro i; [reflexivity|]. cbn. rewrite IH. destruct (truthy _); reflexivity. Qed.
+  Lemma find_loopT_total : forall all l i, find_loopT fT all i l = Some (find_loop f all i l).
+  Proof. intros all l; induction l as [|x r IH]; intro i; [reflexivity|]. cbn. destruct (truthy _); [reflexivity|apply IH]. Qed.
+  Lemma every_loopT_total : forall all l i, every_loopT fT all i l = Some (every_loop f all i l).
+  Proof. intros all l; induction l as [|x r IH]; intro i; [reflexivity|]. cbn. destruct (truthy _); [apply IH|reflexivity]. Qed.
+  Lemma foreach_loopT_total : forall all l i, foreach_loopT fT all i l = Some tt.
+  Proof. intros all l; induction l as [|x r IH]; intro i; [reflexivity|]. cbn. apply IH. Qed.
+  Lemma flatmap_loopT_total : forall all l i, flatmap_loopT fT all i l = Some (flatmap_loop f all i l).
+  Proof. intros all l; induction l as [|x r IH]; intro i; [reflexivity|]. cbn. rewrite IH. reflexivity. Qed.
+End Total.
+
+Lemma call_cbT_total_l : forall m f l,
+  call_cbT m (fun e i a => Some (f e i a)) l = (Some (fst (call_cb m f l)), l).
+Proof.
+  intros m f l; destruct m; cbn; try reflexivity;
+    rewrite ?map_loopT_total, ?filter_loopT_total, ?find_loopT_total, ?every_loopT_total,
+            ?foreach_loopT_total, ?flatmap_loopT_total; reflexivity.
+Qed.
+
+Section Throws.
+  Variables (f : callbackT) (all : list elem) (x : elem) (post : list elem).
+  Lemma map_loopT_throw : forall pre i, passes MMap f all i pre = true -> f x (i + zlen pre) all = None ->
+    map_loopT f all i (pre ++ x :: post) = None.
+  Proof.
+    induction pre as [|y r IH]; intros i Hp Hx; cbn in *.
+    - unfold zlen in Hx; cbn in Hx; rewrite Z.add_0_r in Hx. rewrite Hx. reflexivity.
+    - destruct (f y i all) as [v|]; [|discriminate]. cbn in Hp.
+      rewrite IH; [reflexivity|exact Hp|]. replace (i + 1 + zlen r) with (i + zlen (y :: r)) by (unfold zlen; cbn [List.length]; lia). exact Hx.
+  Qed.
+  Lemma filter_loopT_throw : forall pre i, passes MFilter f all i pre = true -> f x (i + zlen pre) all = None ->
+    filter_loopT f all i (pre ++ x :: post) = None.
+  Proof.
+    induction pre as [|y r IH]; intros i Hp Hx; cbn in *.
+    - unfold zlen in Hx; cbn in Hx; rewrite Z.add_0_r in Hx. rewrite Hx. reflexivity.
+    - destruct (f y i all) as [v|]; [|discriminate]. cbn in Hp.
+      rewrite IH; [reflexivity|exact Hp|]. replace (i + 1 + zlen r) with (i + zlen (y :: r)) by (unfold zlen; cbn [List.length]; lia). exact Hx.
+  Qed.
+  Lemma foreach_loopT_throw : forall pre i, passes MForEach f all i pre = true -> f x (i + zlen pre) all = None ->
+    foreach_loopT f all i (pre ++ x :: post) = None.
+  Proof.
+    induction pre as [|y r IH]; intros i Hp Hx; cbn in *.
+    - unfold zlen in Hx; cbn in Hx; rewrite Z.add_0_r in Hx. rewrite Hx. reflexivity.
+    - destruct (f y i all) as [v|]; [|discriminate]. cbn in Hp.
+      apply IH; [exact Hp|]. replace (i + 1 + zlen r) with (i + zlen (y :: r)) by (unfold zlen; cbn [List.length]; lia). exact Hx.
+  Qed.
+  Lemma flatmap_loopT_throw : forall pre i, passes MFlatMap f all i pre = true -> f x (i + zlen pre) all = None ->
+    flatmap_loopT f all i (pre ++ x :: post) = None.
+  Proof.
+    induction pre as [|y r IH]; intros i Hp Hx; cbn in *.
+    - unfold zlen in Hx; cbn in Hx; rewrite Z.add_0_r in Hx. rewrite Hx. reflexivity.
+    - destruct (f y i all) as [v|]; [|discriminate]. cbn in Hp.
+      rewrite IH; [reflexivity|exact Hp|]. replace (i + 1 + zlen r) with (i + zlen (y :: r)) by (unfold zlen; cbn [List.length]; lia). exact Hx.
+  Qed.
+  (* find / findIndex / some share find_loopT: not stopped = result not truthy *)
+  Lemma find_loopT_throw : forall m pre i, (m = MFind \/ m = MFindIndex \/ m = MSome) ->
+    passes m f all i pre = true -> f x (i + zlen pre) all = None ->
+    find_loopT f all i (pre ++ x :: post) = None.
+  Proof.
+    intros m pre; induction pre as [|y r IH]; intros i Hm Hp Hx; cbn in *.
+    - unfold zlen in Hx; cbn in Hx; rewrite Z.add_0_r in Hx. rewrite Hx. reflexivity.
+    - destruct (f y i all) as [v|]; [|discriminate].
+      apply andb_true_iff in Hp. destruct Hp as [Hs Hp].
+      assert (Ht : truthy v = false) by (destruct Hm as [ -> | [ -> | -> ] ]; cbn in Hs; apply negb_true_iff in Hs; exact Hs).
+      rewrite Ht.
+      apply IH; [exact Hm|exact Hp|]. replace (i + 1 + zlen r) with (i + zlen (y :: r)) by (unfold zlen; cbn [List.length]; lia). exact Hx.
+  Qed.
+  Lemma every_loopT_throw : forall pre i, passes MEvery f all i pre = true -> f x (i + zlen pre) all = None ->
+    every_loopT f all i (pre ++ x :: post) = None.
+  Proof.
+    induction pre as [|y r IH]; intros i Hp Hx; cbn in *.
+    - unfold zlen in Hx; cbn in Hx; rewrite Z.add_0_r in Hx. rewrite Hx. reflexivity.
+    - destruct (f y i all) as [v|]; [|discriminate].
+      apply andb_true_iff in Hp. destruct Hp as [Hs Hp]. cbn in Hs. rewrite negb_involutive in Hs. rewrite Hs.
+      apply IH; [exact Hp|]. replace (i + 1 + zlen r) with (i + zlen (y :: r)) by (unfold zlen; cbn [List.length]; lia). exact Hx.
+  Qed.
+End Throws.
+
+Lemma cb_throw_propagates_l : forall m f pre x post,
+  is_cb_method m = true ->
+  passes m f (pre ++ x :: post)%list 0 pre = true ->
+  f x (zlen pre) (pre ++ x :: post)%list = None ->
+  call_cbT m f (pre ++ x :: post)%list = (None, (pre ++ x :: post)%list).
+Proof.
+  intros m f pre x post Hm Hp Hx. set (l := (pre ++ x :: post)%list) in *.
+  assert (Hx' : f x (0 + zlen pre) l = None) by exact Hx.
+  destruct m; try discriminate; cbn [call_cbT]; unfold l at 2 3.
+  - rewrite (map_loopT_throw f l x post pre 0 Hp Hx'). reflexivity.
+  - rewrite (filter_loopT_throw f l x post pre 0 Hp Hx'). reflexivity.
+  - rewrite (find_loopT_throw f l x post MFind pre 0 (or_introl eq_refl) Hp Hx'). reflexivity.
+  - rewrite (find_loopT_throw f l x post MFindIndex pre 0 (or_intror (or_introl eq_refl)) Hp Hx'). reflexivity.
+  - rewrite (foreach_loopT_throw f l x post pre 0 Hp Hx'). reflexivity.
+  - rewrite (every_loopT_throw f l x post pre 0 Hp Hx'). reflexivity.
+  - rewrite (find_loopT_throw f l x post MSome pre 0 (or_intror (or_intror eq_refl)) Hp Hx'). reflexivity.
+  - rewrite (flatmap_loopT_throw f l x post pre 0 Hp Hx'). reflexivity.
+Qed.
